@@ -20,6 +20,7 @@ func checkC11(c *Ctx, e *Env) {
 	m, r := e1Handlers(c, e)
 	p := m.P
 	noteUndecided(c, m, r, "C11.E1")
+	ruleUpdateTakesEffect(c, m, r, "C11.CRITERIA", map[string]bool{"basket.UpdateDateCriteria": true})
 	put, take := r.byKey["basket.Put"], r.byKey["basket.Take"]
 	if put == nil || take == nil {
 		c.Undecide("C11.E1", "basket.Put/Take", "-", "handlers not found")
